@@ -233,7 +233,7 @@ def make_o1(k, roles_pool, outcome_pool, types):
     return o1
 
 
-NAMES = ["c0", "c1", "dd"]
+NAMES = ["c0", "c1x", "c1"]      # created in this order: "c1x" is registered before "c1", whose name it extends
 
 
 def _mk_named(names):
@@ -250,8 +250,11 @@ def config_oracle(full, cfgs, default_enabled):
     """documented meaning of apply_default_enabled + apply_configs: a component is enabled per the last config entry whose
     name is a prefix of its full name (entry without 'enabled' -> the default), otherwise per the default"""
     val = default_enabled
+    allnames = ["props.C02." + n for n in NAMES]
     for name, en_ in cfgs:
-        if full.startswith(name):
+        # "name is the prefix or exact name": an entry that is some component's exact name applies to just that component
+        hit = (full == name) if name in allnames else full.startswith(name)
+        if hit:
             val = default_enabled if en_ is None else en_
     return val
 
@@ -261,7 +264,7 @@ def make_o2(ncfg):
         with REG:
             comps = _mk_named(NAMES)
             base = "props.C02."
-            pool = [base + "c0", base + "c1", base + "c", base + "dd", base + "zz", "props."]
+            pool = [base + "c0", base + "c1", base + "c", base + "c1x", base + "zz", "props."]
             # history before configuration: earlier explicit switches and earlier reads (a read inserts the default)
             pre = {}
             for n in NAMES:
@@ -530,6 +533,79 @@ def run_twice_judge(ocs, cur, R, r0, g0, g1, calls):
     return bad
 
 
+# ------------------------------------------------------------------ O6: a broker that already holds the value of another component
+def seeded_world(oc_d, vd):
+    calls = {"d": 0, "x": 0, "y": []}
+
+    def mk(name, order, fn, *deps):
+        fn.__name__ = fn.__qualname__ = name
+        fn.__symx_order__ = order
+        return ctype(*deps)(fn)
+
+    def d():
+        calls["d"] += 1
+        if oc_d == "value":
+            return vd
+        raise SkipComponent()
+
+    def x(a):
+        calls["x"] += 1
+        return ("x",)
+
+    def y(a):
+        calls["y"].append(a)
+        return ("y",)
+    D = mk("d", 0, d)
+    X = mk("x", 1, x, D)
+    Y = mk("y", 2, y, D)
+    return D, X, Y, calls
+
+
+def judge_seeded(oc_d, vd, D, X, Y, calls, broker, eq=lambda a, b: a == b):
+    bad = []
+    if calls["x"]:
+        bad.append("the pre-seeded component was invoked")
+    if calls["d"] != 1:
+        bad.append("d is enabled and has no requirements but was invoked %d times" % calls["d"])
+    if oc_d == "value":
+        if len(calls["y"]) != 1 or calls["y"][0] is None or not eq(calls["y"][0], vd):
+            bad.append("y requires d, d produced a value, but y was invoked %d times" % len(calls["y"]))
+        if Y in broker.missing_requirements:
+            bad.append("y reported missing requirements although d produced a value")
+    else:
+        if calls["y"] or tuple(broker.missing_requirements.get(Y, ())) != ([D], []):
+            bad.append("y must not fire and must report d missing")
+    return bad
+
+
+def make_o6():
+    def o6(en):
+        with REG:
+            oc_d = ["value", "skip"][en.choice("oc_d", 2)]
+            vd = en.fresh_int("vd")
+            D, X, Y, calls = seeded_world(oc_d, vd)
+            case = lambda mv: {"kind": "seeded", "oc_d": oc_d, "vd": mv.int(vd)}  # noqa
+            en.note_sample(case)
+            broker = dr.Broker()
+            broker[X] = ("seeded",)
+            g = dr.get_dependency_graph(X)
+            g.update(dr.get_dependency_graph(Y))
+            with oset.symbolic_order(mode="global"):
+                dr.run(g, broker=broker)
+            eqs = []
+
+            def eq(a, b):
+                if isinstance(a, core.SInt) or isinstance(b, core.SInt):
+                    eqs.append(a == b)
+                    return True
+                return a == b
+            bad = judge_seeded(oc_d, vd, D, X, Y, calls, broker, eq)
+            en.must_hold(not bad, "invoked-iff", case, detail=bad)
+            for c_ in eqs:
+                en.must_hold(c_, "invoked-iff", case, detail="y received another value than d's")
+    return o6
+
+
 def obligations(tier):
     thorough = tier == "thorough"
     enc = [dr.ComponentType.__init__, dr.ComponentType.invoke, dr.ComponentType.get_missing_dependencies,
@@ -571,6 +647,9 @@ def obligations(tier):
     obls.append(Obligation("O5-rule-twice", make_o5(), ["missing-reported"],
                            desc="one rule (a required dependency and an at-least-one group) evaluated on two brokers one after the other with independent dependency outcomes: each skip result names exactly that evaluation's missing requirements",
                            bounds={"evaluations": 2, "dependency outcomes": "value / skip, independent per evaluation"}, encoded=[plugins.rule.process, plugins._make_skip.__init__], budget_s=60, replay="fires", check_sample=True))
+    obls.append(Obligation("O6-seeded-broker", make_o6(), ["invoked-iff"],
+                           desc="a broker that already holds the value of a component x (ordinary evaluation, no archive context): the other components still fire exactly when their requirements are met, including a dependency that x shares with them",
+                           bounds={"graph": "d <- x (pre-seeded), d <- y", "outcome of d": ["value", "skip"], "set order": "every global order"}, encoded=[dr.run, dr.run_components], budget_s=60, replay="fires", check_sample=True))
     obls.append(Obligation("O2-config", make_o2(3 if thorough else 2), ["config-enabled"],
                            desc="apply_default_enabled + apply_configs after an arbitrary earlier history of set_enabled / is_enabled on 3 components",
                            bounds={"components": 3, "config entries": 3 if thorough else 2, "name pool": 6, "enabled values": "symbolic booleans"},
@@ -613,6 +692,14 @@ def _native(case):
             if bad:
                 return [("invoked-iff", b) for b in bad + (["component hash order %s" % (hs,)] if hs else [])]
         return []
+    if case.get("kind") == "seeded":
+        D, X, Y, calls = seeded_world(case["oc_d"], case["vd"])
+        broker = dr.Broker()
+        broker[X] = ("seeded",)
+        g = dr.get_dependency_graph(X)
+        g.update(dr.get_dependency_graph(Y))
+        dr.run(g, broker=broker)
+        return [("invoked-iff", b) for b in judge_seeded(case["oc_d"], case["vd"], D, X, Y, calls, broker)]
     if case.get("kind") == "twice":
         ocs, cur, calls = case["outcomes"], [0], []
 
@@ -647,7 +734,7 @@ def _native(case):
 
 def replay(rec):
     case = rec["case"]
-    if "decl" in case or case.get("kind") in ("types", "late", "twice"):
+    if "decl" in case or case.get("kind") in ("types", "late", "twice", "seeded"):
         bad = _native(case)
         return {"reproduced": bool(bad), "detail": bad, "signature": rec["label"]}
     if "cfgs" in case:
